@@ -121,6 +121,68 @@ def gen_partition(seed, big):
     return out
 
 
+def ref_tokenize(src, ds, de):
+    """the recognition automaton (no backtracking) as the proved spec function tokenize_spec defines it"""
+    toks, state, rem, start = [], 'T', None, 0
+    def check_start(c):
+        return ('S', ds[1:]) if c == ds[0] else ('T', None)
+    for i, c in enumerate(src):
+        kind = None
+        if state == 'T':
+            ns, r = check_start(c)
+            if ns == 'S':
+                kind, state, rem = False, 'S', r
+        elif state == 'S':
+            if rem:
+                if c == rem[0]: rem = rem[1:]
+                else: state, rem = 'T', None
+            else:
+                state = 'I'
+        elif state == 'I':
+            if c == de[0]: state, rem = 'E', de[1:]
+        elif state == 'E':
+            if rem:
+                if c == rem[0]: rem = rem[1:]
+                else: state, rem = 'I', None
+            else:
+                kind = True
+                state, rem = check_start(c)
+        if kind is not None:
+            if i > start: toks.append((kind, start, i))
+            start = i
+    if src:
+        last_kind = (state == 'E' and not rem)
+        toks.append((last_kind, start, len(src)))
+    merged = []
+    for k, a, b in toks:
+        if merged and not merged[-1][0] and not k:
+            merged[-1] = (False, merged[-1][1], b)
+        else:
+            merged.append((k, a, b))
+    return merged
+
+
+def gen_recognition(seed, big):
+    """C08 (conformance): tag tokens are exactly the spans the recognition automaton finds (the behaviour that is proved
+    equal to tokenize_spec; the gap to leftmost-shortest matching is known finding K1 and is NOT tested here)"""
+    rnd = random.Random(seed + 7)
+    out = []
+    for ds, de in DELIMS + [('aab', 'bba'), ('// --', '-- //')]:
+        atoms = sorted(set(list(ds) + list(de) + [' ', 'x', 'あ', ds, de, ds + 'r' + de, ds + de]))
+        for _ in range(500 if big else 150):
+            src = ''.join(rnd.choice(atoms) for _ in range(rnd.randint(0, 8)))
+            want = ref_tokenize(src, ds, de)
+            def oracle(r, want=want, src=src):
+                if not r.get('ok'):
+                    return 'tokenize panicked: ' + str(r.get('panic'))[:160]
+                got = [(t['element'], t['start'], t['end']) for t in r['output']]
+                if got != want:
+                    return f'recognised spans differ for {src!r}: expected {want} got {got}'
+                return None
+            out.append((dict(mode='tokenize', source=src, ds=ds, de=de), oracle))
+    return out
+
+
 def gen_expiry(seed, big):
     """C05: removed exactly when now >= to (read at the configured offset); malformed never ready"""
     out = []
@@ -310,9 +372,10 @@ def gen_list_all(seed, big):
         "<%(rm)s name='p'>\n<%(rm)s name='f1'>\na\n</%(rm)s>\n</%(rm)s>\n<%(rm)s name='p' unwrap-block>\nif {\n}\n</%(rm)s>\n",
         "<%(rm)s name='p' unwrap-block>\none line\n</%(rm)s>\nq\n",
     ]
-    for d in docs:
+    expect = [(2, 1), (0, 1), (1, 2), None, None]
+    for d, e in zip(docs, expect):
         src = d % {'rm': RM}
-        out.append((dict(cfg(), mode='list_all_json', source=src, ds='<', de='>', _pair='list_json'), ('LIST_ALL', src)))
+        out.append((dict(cfg(), mode='list_all_json', source=src, ds='<', de='>', _pair='list_json'), ('LIST_ALL', src, e)))
     return out
 
 
@@ -417,7 +480,7 @@ def gen_blanklines(seed, big):
 
 
 GENERATORS = {
-    'C01': [gen_totality], 'C04': [gen_identity, gen_identity_unwrappable], 'C07': [gen_partition], 'C05': [gen_expiry], 'C06': [gen_marker],
+    'C01': [gen_totality], 'C04': [gen_identity, gen_identity_unwrappable], 'C07': [gen_partition], 'C08': [gen_recognition], 'C05': [gen_expiry], 'C06': [gen_marker],
     'C09': [gen_grammar], 'C02': [gen_blocks, gen_inline], 'C03': [gen_blocks, gen_inline], 'C11': [gen_blocks], 'C17': [gen_list_all],
     'C12': [gen_dedent], 'C13': [gen_blanklines], 'C14': [gen_inline],
 }
@@ -457,6 +520,10 @@ def run(prop, drive, seed=0, big=False):
                                     why = f'pending item {a["line_range"]} lies inside ready item {b["line_range"]}'
                     if any(it['annotated_code_block'] == '' for it in allit):
                         why = 'empty item listed'
+                    if len(oracle) > 2 and oracle[2] is not None:
+                        np_ = sum(1 for it in allit if it['current_status'] == 'Pending')
+                        if (np_, len(ready)) != oracle[2]:
+                            why = f'expected {oracle[2][0]} pending and {oracle[2][1]} ready items, listed {np_} and {len(ready)}'
             else:
                 why = oracle(resp)
             if why:
